@@ -29,7 +29,7 @@ from __future__ import annotations
 import ast
 from pathlib import Path
 
-from translate.sites import FILES, TranslateError
+from translate.sites import FILES, TranslateError, all_files
 
 MUTABLE_CALLS = {"dict", "list", "set", "defaultdict", "OrderedDict", "Counter", "deque", "WeakKeyDictionary",
                  "WeakValueDictionary", "WeakSet", "bytearray"}
@@ -142,10 +142,10 @@ def inventory(repo: str):
     base = Path(repo) / "pyanalyze"
     trees = []
     for f in FILES:
-        p = base / f
-        if not p.exists():
+        if not (base / f).exists():
             raise TranslateError(f"anchored file missing: {f}")
-        trees.append((f, ast.parse(p.read_text())))
+    for f in all_files(repo):   # phase 4: every non-test module, the seven anchored files first
+        trees.append((f, ast.parse((base / f).read_text())))
     cfields = class_mutable_fields(trees)
     mutated = _mutated_names(trees)
     items = []
@@ -254,6 +254,36 @@ def inventory(repo: str):
             if isinstance(node, ast.ClassDef) and node.name == "_LookupContext":
                 flds = [st.target.id for st in node.body if isinstance(st, ast.AnnAssign) and isinstance(st.target, ast.Name)]
                 keys.append((fname, "_LookupContext", "<dataclass fields>", "fields", ", ".join(flds)))
+    # memo SLOTS on objects that are shared through Checker-level caches (a cached signature's
+    # return value is one TypedValue for all call sites of all files): every `self.<attr> = ...`
+    # outside __init__ / __post_init__ in the value / type-object / signature classes and in the
+    # cache owners, with the assigned expression and the conditions it sits under
+    SHARED_FILES = {"value.py", "type_object.py", "signature.py"}
+    SHARED_CLASSES = {"Checker", "ArgSpecCache", "TypeshedFinder"}
+    for fname, tree in trees:
+        for cls in ast.walk(tree):
+            if not isinstance(cls, ast.ClassDef) or not (fname in SHARED_FILES or cls.name in SHARED_CLASSES):
+                continue
+            for meth in cls.body:
+                if not isinstance(meth, (ast.FunctionDef, ast.AsyncFunctionDef)) or meth.name in ("__init__", "__post_init__", "__new__"):
+                    continue
+                par = {}
+                for n in ast.walk(meth):
+                    for c in ast.iter_child_nodes(n):
+                        par[c] = n
+                for n in ast.walk(meth):
+                    tgts = n.targets if isinstance(n, ast.Assign) else [n.target] if isinstance(n, (ast.AugAssign, ast.AnnAssign)) else []
+                    for t in tgts:
+                        if isinstance(t, ast.Attribute) and isinstance(t.value, ast.Name) and t.value.id == "self":
+                            conds, c = [], n
+                            while c in par:
+                                p_ = par[c]
+                                if isinstance(p_, ast.If):
+                                    conds.append(("" if c in p_.body else "not ") + "(" + ast.unparse(p_.test) + ")")
+                                c = p_
+                            rhs = ast.unparse(n.value) if getattr(n, "value", None) is not None else ""
+                            keys.append((fname, f"{cls.name}.{meth.name}", "slot " + t.attr, "assign",
+                                         rhs + (" WHEN " + " and ".join(reversed(conds)) if conds else "")))
     # the key of resolution_cache is checked field by field (resolution_key_fields), not as text
     keys = [k for k in keys if "resolution_cache" not in k[2] and k[1] != "_LookupContext"]
     keys = sorted(set(keys))
